@@ -93,6 +93,9 @@ func hashMetric(metric labels.Labels, without bool, grouping []string, buf []byt
 	if without {
 		lb := labels.NewBuilder(metric)
 		lb.Del(grouping...)
+		// The metric name is never part of the result of an aggregation,
+		// HashWithoutLabels does not include it in the key either.
+		lb.Del(labels.MetricName)
 		key, bytes := metric.HashWithoutLabels(buf, grouping...)
 		return key, string(bytes), lb.Labels(nil)
 	}
